@@ -829,6 +829,204 @@ Section AlgebraProofs.
   Proof.
     intros. eapply bound_detected; [rounds_ok|eassumption|]. eapply bls_bound; eauto.
   Qed.
+
+  (* ---------------------------------------------------------------------------------- *)
+  (* Agree-on-random                                                                      *)
+  (* ---------------------------------------------------------------------------------- *)
+  Inductive amut := AmCom (t : term) | AmMsg (t : term) | AmWit (t : term).
+  Definition aapply (mu : amut) (m : ados A) : ados A :=
+    match mu with
+    | AmCom t => mkAd A t (ad_msg A m) (ad_wit A m)
+    | AmMsg t => mkAd A (ad_com A m) t (ad_wit A m)
+    | AmWit t => mkAd A (ad_com A m) (ad_msg A m) t
+    end.
+  Definition achanges (mu : amut) (m : ados A) : Prop :=
+    match mu with AmCom t => t <> ad_com A m | AmMsg t => t <> ad_msg A m | AmWit t => t <> ad_wit A m end.
+  Lemma aor_bound : forall mu (ck : term) id m,
+    all_pass (aor_checks A) ck id m -> achanges mu m ->
+    exists c, In c (aor_checks A) /\ c_pred c ck id (aapply mu m) = false.
+  Proof.
+    intros mu ck id m Hall Hch.
+    assert (C0 := Hall (nth 0 (aor_checks A) (mkCheck 0 (fun _ _ _ => true))) ltac:(simpl; tauto)).
+    simpl in C0. unfold open in *.
+    exists (nth 0 (aor_checks A) (mkCheck 0 (fun _ _ _ => true))). split; [simpl; tauto|]. simpl. unfold open.
+    destruct mu; simpl in Hch; simpl.
+    - eapply eqb_left_change; eauto.
+    - eapply eqb_right_change; eauto. intro E. apply com_inj in E. destruct E as [_ [E _]]. contradiction.
+    - eapply eqb_right_change; eauto. intro E. apply com_inj in E. destruct E as [_ [_ E]]. contradiction.
+  Qed.
+
+  (* ---------------------------------------------------------------------------------- *)
+  (* Canetti DKG                                                                          *)
+  (* ---------------------------------------------------------------------------------- *)
+  Inductive cmut := CmV (t : term) | CmSid (t : term) | CmShId (n : N) | CmRho (t : term) | CmX (k : nat) (x : R)
+                  | CmA (x : R) | CmU (t : term) | CmShareId (n : N) | CmShare (x : R)
+                  | CmPsiA (x : R) | CmPsiE (t : term) | CmPsiZ (x : R).
+  Definition capply (mu : cmut) (m : cdos A) : cdos A :=
+    match mu with
+    | CmV t => mkC A t (c_sid A m) (c_shid A m) (c_rho A m) (c_x A m) (c_a A m) (c_u A m) (c_shareid A m) (c_share A m) (c_pa A m) (c_pe A m) (c_pz A m)
+    | CmSid t => mkC A (c_v A m) t (c_shid A m) (c_rho A m) (c_x A m) (c_a A m) (c_u A m) (c_shareid A m) (c_share A m) (c_pa A m) (c_pe A m) (c_pz A m)
+    | CmShId n => mkC A (c_v A m) (c_sid A m) n (c_rho A m) (c_x A m) (c_a A m) (c_u A m) (c_shareid A m) (c_share A m) (c_pa A m) (c_pe A m) (c_pz A m)
+    | CmRho t => mkC A (c_v A m) (c_sid A m) (c_shid A m) t (c_x A m) (c_a A m) (c_u A m) (c_shareid A m) (c_share A m) (c_pa A m) (c_pe A m) (c_pz A m)
+    | CmX k x => mkC A (c_v A m) (c_sid A m) (c_shid A m) (c_rho A m) (set_nth k x (c_x A m)) (c_a A m) (c_u A m) (c_shareid A m) (c_share A m) (c_pa A m) (c_pe A m) (c_pz A m)
+    | CmA x => mkC A (c_v A m) (c_sid A m) (c_shid A m) (c_rho A m) (c_x A m) x (c_u A m) (c_shareid A m) (c_share A m) (c_pa A m) (c_pe A m) (c_pz A m)
+    | CmU t => mkC A (c_v A m) (c_sid A m) (c_shid A m) (c_rho A m) (c_x A m) (c_a A m) t (c_shareid A m) (c_share A m) (c_pa A m) (c_pe A m) (c_pz A m)
+    | CmShareId n => mkC A (c_v A m) (c_sid A m) (c_shid A m) (c_rho A m) (c_x A m) (c_a A m) (c_u A m) n (c_share A m) (c_pa A m) (c_pe A m) (c_pz A m)
+    | CmShare x => mkC A (c_v A m) (c_sid A m) (c_shid A m) (c_rho A m) (c_x A m) (c_a A m) (c_u A m) (c_shareid A m) x (c_pa A m) (c_pe A m) (c_pz A m)
+    | CmPsiA x => mkC A (c_v A m) (c_sid A m) (c_shid A m) (c_rho A m) (c_x A m) (c_a A m) (c_u A m) (c_shareid A m) (c_share A m) x (c_pe A m) (c_pz A m)
+    | CmPsiE t => mkC A (c_v A m) (c_sid A m) (c_shid A m) (c_rho A m) (c_x A m) (c_a A m) (c_u A m) (c_shareid A m) (c_share A m) (c_pa A m) t (c_pz A m)
+    | CmPsiZ x => mkC A (c_v A m) (c_sid A m) (c_shid A m) (c_rho A m) (c_x A m) (c_a A m) (c_u A m) (c_shareid A m) (c_share A m) (c_pa A m) (c_pe A m) x
+    end.
+  Definition cchanges (mu : cmut) (m : cdos A) : Prop :=
+    match mu with
+    | CmV t => t <> c_v A m | CmSid t => t <> c_sid A m | CmShId n => n <> c_shid A m | CmRho t => t <> c_rho A m
+    | CmX k x => (k < length (c_x A m))%nat /\ x <> nth k (c_x A m) r0
+    | CmA x => x <> c_a A m | CmU t => t <> c_u A m | CmShareId n => n <> c_shareid A m | CmShare x => x <> c_share A m
+    | CmPsiA x => x <> c_pa A m | CmPsiE t => t <> c_pe A m | CmPsiZ x => x <> c_pz A m
+    end.
+
+  Lemma cmsg_inj : forall m m', cmsg A m = cmsg A m' ->
+    c_sid A m = c_sid A m' /\ c_shid A m = c_shid A m' /\ c_rho A m = c_rho A m' /\ c_x A m = c_x A m' /\ c_a A m = c_a A m'.
+  Proof.
+    unfold cmsg, tlist; simpl. intros m m' H. inversion H as [[H1 H2 H3 H4 H5]].
+    apply tscalars_inj in H4. auto.
+  Qed.
+
+  Ltac cck n := exists (nth n (canetti_checks A) (mkCheck 0 (fun _ _ _ => true))); split; [simpl; tauto|]; simpl.
+
+  Lemma canetti_bound : forall mu st id m,
+    all_pass (canetti_checks A) st id m -> cchanges mu m ->
+    exists c, In c (canetti_checks A) /\ c_pred c st id (capply mu m) = false.
+  Proof.
+    intros mu st id m Hall Hch.
+    assert (C3 := Hall (nth 3 (canetti_checks A) (mkCheck 0 (fun _ _ _ => true))) ltac:(simpl; tauto)).
+    assert (C4 := Hall (nth 4 (canetti_checks A) (mkCheck 0 (fun _ _ _ => true))) ltac:(simpl; tauto)).
+    assert (C5 := Hall (nth 5 (canetti_checks A) (mkCheck 0 (fun _ _ _ => true))) ltac:(simpl; tauto)).
+    assert (C6 := Hall (nth 6 (canetti_checks A) (mkCheck 0 (fun _ _ _ => true))) ltac:(simpl; tauto)).
+    assert (C7 := Hall (nth 7 (canetti_checks A) (mkCheck 0 (fun _ _ _ => true))) ltac:(simpl; tauto)).
+    assert (C8 := Hall (nth 8 (canetti_checks A) (mkCheck 0 (fun _ _ _ => true))) ltac:(simpl; tauto)).
+    simpl in C3, C4, C5, C6, C7, C8. unfold open in *. apply eqb_spec in C5. apply eqb_spec in C6. apply eqb_spec in C8.
+    destruct mu; simpl in Hch.
+    - cck 4%nat. unfold open. eapply eqb_left_change; eauto.
+    - cck 4%nat. unfold open. eapply eqb_right_change; eauto.
+      intro E. apply com_inj in E. destruct E as [_ [E _]]. apply cmsg_inj in E. simpl in E. destruct E as [E _]. contradiction.
+    - cck 4%nat. unfold open. eapply eqb_right_change; eauto.
+      intro E. apply com_inj in E. destruct E as [_ [E _]]. apply cmsg_inj in E. simpl in E. destruct E as [_ [E _]]. contradiction.
+    - cck 4%nat. unfold open. eapply eqb_right_change; eauto.
+      intro E. apply com_inj in E. destruct E as [_ [E _]]. apply cmsg_inj in E. simpl in E. destruct E as [_ [_ [E _]]]. contradiction.
+    - destruct Hch as [Hk Hne]. cck 4%nat. unfold open. eapply eqb_right_change; eauto.
+      intro E. apply com_inj in E. destruct E as [_ [E _]]. apply cmsg_inj in E. simpl in E. destruct E as [_ [_ [_ [E _]]]].
+      eapply set_nth_neq; eauto.
+    - cck 4%nat. unfold open. eapply eqb_right_change; eauto.
+      intro E. apply com_inj in E. destruct E as [_ [E _]]. apply cmsg_inj in E. simpl in E. destruct E as [_ [_ [_ [_ E]]]]. contradiction.
+    - cck 4%nat. unfold open. eapply eqb_right_change; eauto.
+      intro E. apply com_inj in E. destruct E as [_ [_ E]]. contradiction.
+    - cck 3%nat. apply N.eqb_eq in C3. apply N.eqb_neq. congruence.
+    - cck 5%nat. apply reqb_false. congruence.
+    - cck 6%nat. apply reqb_false. congruence.
+    - cck 7%nat. eapply eqb_left_change; eauto.
+    - cck 8%nat. apply reqb_false. congruence.
+  Qed.
+
+  (* no_bad_output (Canetti): the guard of the last step (mpc.NewBaseShard) IS the statement *)
+  Lemma canetti_fin_good : forall st own_s own_v inbox s V,
+    canetti_fin A st own_s own_v inbox = Some (s, V) -> s = dot A (c_row A st) V.
+  Proof.
+    intros st own_s own_v inbox s V. unfold canetti_fin.
+    match goal with |- context [fold_left ?f inbox ?i] => set (acc := fold_left f inbox i) end.
+    destruct (aeqb A (fst acc) (dot A (c_row A st) (snd acc))) eqn:E; [|discriminate].
+    intro H. inversion H as [H1]. destruct acc as [s1 V1]. simpl in *. inversion H1; subst.
+    apply eqb_spec; assumption.
+  Qed.
+
+  (* ---------------------------------------------------------------------------------- *)
+  (* DKLs23 softspoken                                                                    *)
+  (* ---------------------------------------------------------------------------------- *)
+  Inductive omut := OmSign (mu : dmut) | OmOtU (t : term) | OmOtX (t : term) | OmOtT (t : term).
+  Definition omut_fld (mu : omut) : ofld :=
+    match mu with OmSign d => OSign (dmut_fld d) | OmOtU _ => OOtU | OmOtX _ => OOtX | OmOtT _ => OOtT end.
+  Definition oapply (mu : omut) (m : odos A) : odos A :=
+    match mu with
+    | OmSign d => mkO A (dapply d (o_d A m)) (o_otu A m) (o_otx A m) (o_ott A m)
+    | OmOtU t => mkO A (o_d A m) t (o_otx A m) (o_ott A m)
+    | OmOtX t => mkO A (o_d A m) (o_otu A m) t (o_ott A m)
+    | OmOtT t => mkO A (o_d A m) (o_otu A m) (o_otx A m) t
+    end.
+  Definition ochanges (mu : omut) (m : odos A) : Prop :=
+    match mu with
+    | OmSign d => dchanges d (o_d A m)
+    | OmOtU t => t <> o_otu A m | OmOtX t => t <> o_otx A m | OmOtT t => t <> o_ott A m
+    end.
+
+  Ltac ock n := exists (nth n (softspoken_checks A) (mkCheck 0 (fun _ _ _ => true))); split; [simpl; tauto|]; simpl.
+
+  Lemma softspoken_bound : forall mu st id m,
+    softspoken_class (omut_fld mu) = Bound ->
+    d_chi A st id <> r0 ->
+    all_pass (softspoken_checks A) st id m -> ochanges mu m ->
+    exists c, In c (softspoken_checks A) /\ c_pred c st id (oapply mu m) = false.
+  Proof.
+    intros mu st id m Hc Hchi Hall Hch.
+    assert (C0 := Hall (nth 0 (softspoken_checks A) (mkCheck 0 (fun _ _ _ => true))) ltac:(simpl; tauto)).
+    assert (C1 := Hall (nth 1 (softspoken_checks A) (mkCheck 0 (fun _ _ _ => true))) ltac:(simpl; tauto)).
+    assert (C2 := Hall (nth 2 (softspoken_checks A) (mkCheck 0 (fun _ _ _ => true))) ltac:(simpl; tauto)).
+    assert (C3 := Hall (nth 3 (softspoken_checks A) (mkCheck 0 (fun _ _ _ => true))) ltac:(simpl; tauto)).
+    assert (C4 := Hall (nth 4 (softspoken_checks A) (mkCheck 0 (fun _ _ _ => true))) ltac:(simpl; tauto)).
+    simpl in C0, C1, C2, C3, C4. apply eqb_spec in C3. apply eqb_spec in C4. unfold open in *.
+    destruct mu as [d|t|t|t]; simpl in Hch.
+    - destruct d; simpl in Hc; try discriminate; simpl in Hch.
+      + ock 0%nat. unfold open. eapply eqb_left_change; eauto.
+      + ock 1%nat. eapply eqb_right_change; eauto. unfold ot_term, tlist; simpl. intro E. inversion E. contradiction.
+      + ock 0%nat. unfold open. eapply eqb_right_change; eauto.
+        intro E. apply com_inj in E. destruct E as [_ [E _]]. inversion E. contradiction.
+      + ock 0%nat. unfold open. eapply eqb_right_change; eauto.
+        intro E. apply com_inj in E. destruct E as [_ [_ E]]. contradiction.
+      + ock 4%nat. apply reqb_false. intro E. rewrite <- C4 in E.
+        assert (d_chi A st id * (x - d_pk A (o_d A m)) = r0) as Z.
+        { transitivity ((d_chi A st id * x - d_gv A (o_d A m)) - (d_chi A st id * d_pk A (o_d A m) - d_gv A (o_d A m))); [ring|]. rewrite E. ring. }
+        destruct (integral _ _ Z) as [Z1|Z1]; [contradiction|].
+        apply Hch. transitivity ((x - d_pk A (o_d A m)) + d_pk A (o_d A m)); [ring|]. rewrite Z1. ring.
+      + ock 3%nat. apply reqb_false. intro E. rewrite <- C3 in E. apply sub_cancel_l in E. contradiction.
+      + ock 4%nat. apply reqb_false. intro E. rewrite <- C4 in E. apply sub_cancel_l in E. contradiction.
+      + ock 2%nat. eapply eqb_right_change; eauto. unfold mu_term, tlist; simpl. intro E. inversion E. contradiction.
+      + ock 2%nat. eapply eqb_right_change; eauto. unfold mu_term, tlist; simpl. intro E. inversion E. contradiction.
+      + ock 2%nat. eapply eqb_left_change; eauto.
+      + (* phi: part of the base-OT view the consistency check covers *)
+        ock 1%nat. eapply eqb_right_change; eauto. unfold ot_term, tlist; simpl. intro E. inversion E. contradiction.
+    - ock 1%nat. eapply eqb_right_change; eauto. unfold ot_term, tlist; simpl. intro E. inversion E. contradiction.
+    - ock 1%nat. eapply eqb_right_change; eauto. unfold ot_term, tlist; simpl. intro E. inversion E. contradiction.
+    - ock 1%nat. eapply eqb_left_change; eauto.
+  Qed.
+
+  Lemma softspoken_late : forall mu st id m c,
+    softspoken_class (omut_fld mu) = Late -> In c (softspoken_checks A) ->
+    c_pred c st id (oapply mu m) = c_pred c st id m.
+  Proof.
+    intros mu st id m c Hc Hin. simpl in Hin.
+    destruct mu as [d|t|t|t]; simpl in Hc; try discriminate.
+    destruct d; simpl in Hc; try discriminate.
+    destruct Hin as [E|[E|[E|[E|[E|[]]]]]]; subst; reflexivity.
+  Qed.
+
+  Lemma aor_detected : forall mu (ck : term) d m inbox,
+    all_pass (aor_checks A) ck d m -> achanges mu m -> In (d, aapply mu m) inbox ->
+    run_rounds [3]%nat (aor_checks A) ck inbox <> Accept.
+  Proof.
+    intros. eapply bound_detected; [rounds_ok|eassumption|]. eapply aor_bound; eauto.
+  Qed.
+  Lemma canetti_detected : forall mu st d m inbox,
+    all_pass (canetti_checks A) st d m -> cchanges mu m -> In (d, capply mu m) inbox ->
+    run_rounds [3; 4]%nat (canetti_checks A) st inbox <> Accept.
+  Proof.
+    intros. eapply bound_detected; [rounds_ok|eassumption|]. eapply canetti_bound; eauto.
+  Qed.
+  Lemma softspoken_detected : forall mu st d m inbox,
+    softspoken_class (omut_fld mu) = Bound -> d_chi A st d <> r0 ->
+    all_pass (softspoken_checks A) st d m -> ochanges mu m -> In (d, oapply mu m) inbox ->
+    run_rounds [4; 5]%nat (softspoken_checks A) st inbox <> Accept.
+  Proof.
+    intros. eapply bound_detected; [rounds_ok|eassumption|]. eapply softspoken_bound; eauto.
+  Qed.
 End AlgebraProofs.
 
 (* ------------------------------------------------------------------------------------ *)
